@@ -132,7 +132,7 @@ Section ImageHigh.
   Proof.
     intros Hl. unfold via_pk. pose proof (set_key_np r cols pk Hl) as Hs.
     destruct (set_key r cols pk) as [pk'|e]; [|unfold fl_ok; cbn [fst]; destruct e; try exact I; discriminate Hs].
-    pose proof (image_index_scan_eq_ok img U HU (option record) troot pk' (fun row _ => (Stop, Some row)) None
+    pose proof (image_index_scan_eq_ok img U HU (option record) troot pk' (fun row _ => (Stop, nonempty row)) None
                   ltac:(intros; exact I)) as He. fold pg n op in He.
     destruct (index_scan_eq pg op n (option record) troot pk' _ None) as [[| |e] [found|]]; try apply Hcb; try (apply fail_ok; discriminate).
     all: unfold fl_ok in *; cbn [fst] in *; exact He.
